@@ -1,0 +1,107 @@
+//go:build verif
+
+// Machine-checked contracts for package pkcs9 (comment-only; see /verif/DESIGN.md).
+
+package pkcs9
+
+//@ func (*TimeStampReq).ParseResponse
+//@   property C10
+//@   ghost parsed bool = false
+//@   ghost restEmpty bool = false
+//@   ghost sane bool = false
+//@   ghost saneTok *pkcs7.ContentInfoSignedData = nil
+//@   on call encoding/asn1.Unmarshal(b, v) ret (rest, e): parsed = (e == nil && sameslice(b, body)); restEmpty = (len(rest) == 0)
+//@   on call (*TimeStampReq).SanityCheckToken(r, t) ret (e): sane = (e == nil && r == req); saneTok = t
+//@   ensures @reply_fully_parsed ret1 == nil ==> parsed && restEmpty
+//@   ensures @request_was_granted ret1 == nil ==> respmsg.Status.Status <= 1
+//@   ensures @token_passed_the_sanity_check ret1 == nil ==> sane && ret0 == saneTok && ret0 == addr(respmsg.TimeStampToken)
+//@   ensures @token_present_on_success ret1 == nil ==> ret0 != nil
+//@   ensures @no_token_on_error ret1 != nil ==> ret0 == nil
+//@   modifies nothing
+//@
+//@ func (*TimeStampReq).SanityCheckToken
+//@   property C10
+//@   ghost sigOK bool = false
+//@   ghost info *TSTInfo = nil
+//@   ghost infoOK bool = false
+//@   ghost nonceEq bool = false
+//@   ghost imprintEq bool = false
+//@   on call (*pkcs7.SignedData).Verify(sd, ext, skip) ret (sig, e): sigOK = (e == nil && sd == addr(psd.Content) && ext == nil && !skip)
+//@   on call unpackTokenInfo(p) ret (i, e): info = i; infoOK = (e == nil && p == psd)
+//@   on call (*math/big.Int).Cmp(a, b) ret (c): nonceEq = (c == 0 && a == req.Nonce && b == info.Nonce)
+//@   on call crypto/hmac.Equal(a, b) ret (r): imprintEq = (r && sameslice(a, info.MessageImprint.HashedMessage) && sameslice(b, req.MessageImprint.HashedMessage))
+//@   ensures @token_signature_covers_its_content ret0 == nil ==> sigOK
+//@   ensures @token_info_is_this_tokens ret0 == nil ==> infoOK
+//@   ensures @nonce_echoed ret0 == nil ==> nonceEq
+//@   ensures @imprint_is_the_requested_digest ret0 == nil ==> imprintEq
+//@   modifies nothing
+//@
+//@ func unpackTokenInfo
+//@   property C10
+//@   ensures @info_present_on_success ret1 == nil ==> ret0 != nil
+//@   fresh ret0
+//@   modifies nothing
+//@
+//@ func (MessageImprint).Verify
+//@   property C10
+//@   ghost hashed bool = false
+//@   ghost digest []byte = nil
+//@   ghost eq bool = false
+//@   on call invoke hash.Hash.Write(_, b) ret (n, e): hashed = sameslice(b, data)
+//@   on call invoke hash.Hash.Sum(_, _) ret (s): digest = s
+//@   on call crypto/hmac.Equal(a, b) ret (r): eq = (r && hashed && sameslice(a, digest) && sameslice(b, i.HashedMessage))
+//@   ensures @imprint_equals_digest_of_the_data ret0 == nil ==> eq
+//@   modifies nothing
+//@
+//@ func Verify
+//@   property C10
+//@   ghost imprintOK bool = false
+//@   ghost tinfo *TSTInfo = nil
+//@   on call unpackTokenInfo(p) ret (i, e): tinfo = i
+//@   on call (MessageImprint).Verify(mi, d) ret (e): imprintOK = (e == nil && sameslice(d, data) && sameslice(mi.HashedMessage, tinfo.MessageImprint.HashedMessage))
+//@   before call finishVerify(si, _, _, _, _, _): assert @token_signer_verified_after_imprint imprintOK
+//@   ensures @countersignature_covers_the_given_data ret1 == nil ==> imprintOK
+//@   ensures @exactly_one_signer ret1 == nil ==> old(len(tst.Content.SignerInfos)) == 1
+//@
+//@ func VerifyPkcs7
+//@   property C10
+//@   before call Verify(_, d, _): assert @token_checked_against_this_signature_value sameslice(d, sig.SignerInfo.EncryptedDigest)
+//@   before call finishVerify(_, b, _, _, _, _): assert @countersignature_checked_against_this_signature_value sameslice(b, sig.SignerInfo.EncryptedDigest)
+//@
+//@ func VerifyMicrosoftToken
+//@   property C10
+//@   ghost eq bool = false
+//@   on call bytes.Equal(a, b) ret (r): eq = (r && sameslice(b, encryptedDigest) && sameslice(a, content))
+//@   ensures @legacy_token_covers_this_signature_value ret1 == nil ==> eq
+//@
+//@ func (CounterSignature).VerifyChain
+//@   property C10
+//@   before call (pkcs7.Signature).VerifyChain(_, r, x, u, t): assert @timestamp_chain_needs_timestamping_usage_at_attested_time \
+//@        u == x509.ExtKeyUsageTimeStamping && t == cs.SigningTime && r == roots
+//@
+//@ func (TimestampedSignature).VerifyChain
+//@   property C10
+//@   ghost tsChainOK bool = false
+//@   on call (CounterSignature).VerifyChain(c, r, x) ret (e): tsChainOK = (e == nil && r == roots)
+//@   before call (pkcs7.Signature).VerifyChain(_, r, x, u, t): assert @chain_judged_at_attested_time \
+//@        (sig.CounterSignature != nil ==> tsChainOK && t == sig.CounterSignature.SigningTime) && u == usage && r == roots
+//@   ensures @timestamp_chain_validated_first sig.CounterSignature != nil && ret0 == nil ==> tsChainOK
+//@
+//@ func TimestampAndMarshal
+//@   property C10
+//@   ghost asked bool = false
+//@   ghost tsErr error = nil
+//@   ghost tok *pkcs7.ContentInfoSignedData = nil
+//@   ghost attached bool = false
+//@   ghost selfChecked bool = false
+//@   ghost stampChecked bool = false
+//@   before call invoke Timestamper.Timestamp(_, _, r): assert @timestamp_requested_for_this_signature_value \
+//@        sameslice(r.EncryptedDigest, psd.Content.SignerInfos[0].EncryptedDigest)
+//@   on call invoke Timestamper.Timestamp(_, _, _) ret (t, e): asked = true; tsErr = e; tok = t
+//@   on call AddStampToSignedData(si, t) ret (e): attached = (e == nil && tsErr == nil && si == signerInfo)
+//@   on call AddStampToSignedAuthenticode(si, t) ret (e): attached = (e == nil && tsErr == nil && si == signerInfo)
+//@   on call (*pkcs7.SignedData).Verify(sd, ext, skip) ret (v, e): selfChecked = (e == nil && !skip && ext == nil && sd == addr(psd.Content) && (timestamper == nil || attached))
+//@   on call VerifyOptionalTimestamp(_) ret (ts, e): stampChecked = (e == nil && selfChecked)
+//@   ensures @timestamper_failure_fails_the_signing asked && tsErr != nil ==> ret1 != nil
+//@   ensures @timestamp_attached_when_configured timestamper != nil && ret1 == nil ==> asked && attached
+//@   ensures @self_check_after_attaching ret1 == nil ==> selfChecked && stampChecked
